@@ -848,6 +848,33 @@ impl World {
         r.unwrap_or(json!({"__panic": true}))
     }
 
+    /// A `reply` the contract did not ask for (unknown id, missing / garbage / valid data, error result):
+    /// the entry point must refuse it with a typed error and leave the store alone.
+    pub fn tx_stray_reply(&mut self, id: u64, variant: u64) -> TxOut {
+        self.cur = self.contract.clone();
+        let snap = self.store.clone();
+        let result = match variant % 4 {
+            0 => SubMsgResult::Ok(SubMsgResponse { events: vec![], data: None }),
+            1 => SubMsgResult::Ok(SubMsgResponse { events: vec![], data: Some(Binary::from(vec![0xffu8, 0xff, 0x01])) }),
+            2 => SubMsgResult::Ok(SubMsgResponse { events: vec![], data: Some(Binary::from(pb::Enc::new().uint(1, 7).done())) }),
+            _ => SubMsgResult::Err("codespace: ibc, code: 7".into()),
+        };
+        let reply = Reply { id, result };
+        let mut out = TxOut::default();
+        match self.with_deps_mut(|deps, env| staking::contract::reply(deps, env, reply)) {
+            Err(p) => {
+                out.panic = true;
+                out.err = format!("panic: {p}");
+            }
+            Ok(Err(e)) => out.err = e.to_string(),
+            Ok(Ok(_)) => out.ok = true,
+        }
+        if !out.ok {
+            self.store = snap;
+        }
+        out
+    }
+
     // ---------------------------------------------------------------- environment events
     /// Relayer delivers the outcome of packet `seq`: "ok", "err" or "timeout".
     pub fn ibc_outcome(&mut self, seq: u64, outcome: &str, cfg_staker: &str) -> Option<TxOut> {
